@@ -8,3 +8,4 @@ import MiniconfVerif.Props.C02
 #print axioms MiniconfVerif.C02.operations_agree
 #print axioms MiniconfVerif.C02.structural_depths
 #print axioms MiniconfVerif.C02.indices_in_range
+#print axioms MiniconfVerif.C02.source_bookkeeping_is_model
